@@ -139,6 +139,15 @@ func (w *World) define(base string, s *Sort, body string) string {
 	return n
 }
 
+// defineOpaque names a term by a fresh constant and an equation (instead of define-fun, which the
+// solvers inline: a select over a stored heap version inside the term then turns into an ite and
+// the term can no longer be used in a pattern).
+func (w *World) defineOpaque(base string, s *Sort, body string) string {
+	n := w.freshConst(base, s)
+	w.axioms = append(w.axioms, fmt.Sprintf("(= %s %s)", n, body))
+	return n
+}
+
 func (w *World) unSort(name string) *Sort {
 	key := "un:" + name
 	if s, ok := w.sorts[key]; ok {
